@@ -1,5 +1,6 @@
 """C03 - decoder accepts every spec-valid encoding (any block layout), rejects
 out-of-range indices and truncated input, on the read path and the skip path."""
+import copy
 import io
 import os
 
@@ -80,6 +81,13 @@ class C03(Check):
         yield {"schema": {"type": "array", "items": "long"}, "enc": bytes.fromhex("03040204" "06" "06080a" "00"), "marks": [], "parsed": False}
         yield {"schema": {"type": "map", "values": "string"}, "enc": bytes.fromhex("01" "08" "0261" "0278" "02" "0262" "00" "00"), "marks": [], "parsed": True}
         yield {"schema": {"type": "array", "items": "null"}, "enc": bytes.fromhex("02" "05" "00" "00"), "marks": [], "parsed": False}
+        # block counts and byte sizes that need two-byte varints
+        ab = {"type": "array", "items": "boolean"}
+        yield {"schema": ab, "enc": _varint(130) + b"\x01" * 130 + b"\x00", "marks": [], "parsed": False}
+        yield {"schema": ab, "enc": _varint(-130) + _varint(130) + b"\x01" * 130 + b"\x00", "marks": [], "parsed": True}
+        yield {"schema": ab, "enc": _varint(64) + b"\x00" * 64 + _varint(-66) + _varint(66) + b"\x01" * 66 + b"\x00", "marks": [], "parsed": False}
+        yield {"schema": {"type": "map", "values": "null"}, "enc": _varint(-70) + _varint(140) + b"".join(b"\x02" + bytes([48 + i]) for i in range(70)) + b"\x00", "marks": [], "parsed": False}
+        yield {"schema": {"type": "array", "items": "string"}, "enc": _varint(-2) + _varint(2 * len(_varint(10000) + b"a" * 10000)) + (_varint(10000) + b"a" * 10000) * 2 + b"\x00", "marks": [], "parsed": False}
 
     def _read(self, schema, data):
         fo = io.BytesIO(data)
@@ -231,6 +239,13 @@ class C03(Check):
         got, p = guard("skip-valid-encoding", self._skip, wl, rl, tail + enc)
         if got != {"sentinel": SENTINEL} or p != len(enc) + len(tail):
             raise Violation("skip-mismatch:last", f"skipping the value as the last field got {got!r:.100} at {p}/{len(enc)+len(tail)}; schema={js!r} enc={enc[:80].hex()}")
+        # ---- positive: read under a reader schema (the resolving item readers), value kept
+        kw_ = {"type": "record", "name": WRAP, "fields": [{"name": "kept", "type": js}, {"name": "sentinel", "type": "long"}]}
+        kr_ = {"type": "record", "name": WRAP, "doc": "same schema, not the same object", "fields": [{"name": "sentinel", "type": "long"}, {"name": "kept", "type": copy.deepcopy(js)}]}
+        got, p = guard("resolve-valid-encoding", self._skip, kw_, kr_, enc + tail)
+        labels.add("resolve-path")
+        if p != len(enc) + len(tail) or not isinstance(got, dict) or got.get("sentinel") != SENTINEL or not B.same(got.get("kept"), expect):
+            raise Violation("resolve-mismatch", f"read under an equivalent reader schema gives {got!r:.200} at {p}/{len(enc)+len(tail)}, reference value {expect!r:.200}; schema={js!r} enc={enc[:80].hex()}")
         # layout labels (recorded by the generator; fixed cases are labelled by re-encoding)
         lay = case.get("layout")
         if lay is None:
